@@ -233,6 +233,28 @@ def check_case(case):
         return out, cls            # (sim3 is the live simulator now; the re-establishment check below needs the first one)
     r = sim.reactor
     r.settle(fire_due=True)
+    h = min(180, case.get('hold', 180))
+    if case['type'] == rc.UPDATE and case['state'] == 'ESTABLISHED' and sim.state == 'ESTABLISHED' and h and cls == 'survived' \
+            and ss.live_connectors(sim):
+        # the peer's only traffic for two hold intervals is the hostile UPDATE, every third of the hold time: an UPDATE restarts
+        # the hold timer (RFC 4271 event 27), so a session that dies here was torn down by the malformed bodies
+        c = ss.live_connectors(sim)[-1]
+        bad = rc.frame(case['type'], bytes.fromhex(case['body']))
+        t_end = r.now + 2 * h + 1
+        step = max(1, h // 3)
+        while r.now < t_end and sim.state == 'ESTABLISHED':
+            if not r.peer_send(c, bad):
+                break
+            r.settle(fire_due=True)
+            r.advance(step)
+            r.settle(fire_due=True)
+        if sim.state != 'ESTABLISHED':
+            # 'unreported': the agent gave the application no report for this body at all (Update.parse raised and the
+            # catch-all of parse_buffer dropped the message)
+            out.append(('update-tears-down:only-hostile-traffic:%s:%s' % (sim.state, 'reported' if per_msg[bad_idx][2] else 'unreported'),
+                        'peer sends UPDATE body %s every %d s and nothing else (hold %d): state %s after %d s'
+                        % (case['body'][:80], step, h, sim.state, r.now - (t_end - 2 * h - 1))))
+            return out, 'fail'
     if sim.state not in ('ESTABLISHED', 'OPENSENT', 'OPENCONFIRM'):
         cls = 'closed'
         pend = bool(r.pending()) or bool(r.attempts())
